@@ -35,10 +35,10 @@ REQUIRED_OBS = ['bundles', 'expect_fail', 'expect_deliver', 'reports_with_securi
 
 SEC_REASONS = {12, 13, 14, 15, 16}
 CLASSES = ['valid', 'valid-scope', 'dup-params-apart', 'none', 'wrong-tag', 'unknown-kid', 'altered-target', 'altered-primary', 'altered-flag-bits', 'unknown-context', 'missing-target',
-           'dup-params', 'dup-results', 'count-mismatch', 'two-results', 'zero-results', 'garbage-cose', 'wrong-msg-type', 'truncated-cose',
+           'dup-params', 'dup-results', 'count-mismatch', 'two-results', 'zero-results', 'layers-empty', 'garbage-cose', 'wrong-msg-type', 'truncated-cose',
            'not-an-asb', 'asb-bad-source', 'scope-missing-block', 'two-blocks-first-bad', 'two-blocks-second-bad',
            'two-blocks-both-good', 'multi-target-first-bad', 'multi-target-last-bad', 'multi-target-good', 'attached-original-altered-target',
-           'decoy-shares-number', 'two-adjacent-good', 'two-adjacent-second-bad']
+           'decoy-shares-number', 'two-adjacent-good', 'two-adjacent-second-bad', 'bib-bad-under-good-bcb']
 # classes whose bundles are also structurally malformed for RFC 9171 (two blocks with one number): only "not delivered" is demanded,
 # a drop at decoding (even by an exception out of the receive callback) is as good as a deletion
 MALFORMED = ('decoy-shares-number',)
@@ -138,6 +138,31 @@ def build(cls, variant, rng, report):
         add_block(kind, pay, 2, mutate=lambda asb, sec, tgt: asb.update(results=[[asb['results'][0][0], (asb['results'][0][0][0] + 100, asb['results'][0][0][1])]]))
     elif cls == 'zero-results':
         add_block(kind, pay, 2, mutate=lambda asb, sec, tgt: asb.update(results=[[]]))
+    elif cls == 'bib-bad-under-good-bcb':
+        # the payload carries an integrity block that does not verify (tag altered, or made with a key nobody here has) and, on top,
+        # a confidentiality block that does verify: the bundle has a security block that fails for its target
+        def spoil_tag(asb, sec, tgt):
+            (rid, rval) = asb['results'][0][0]
+            msg = cw.parse_all(rval).to_python()
+            msg[3] = bytes([msg[3][0] ^ 1]) + msg[3][1:]
+            asb['results'][0][0] = (rid, cw.enc(msg))
+        if rng.random() < 0.5:
+            add_block('bib', pay, 2, mutate=spoil_tag)
+        else:
+            add_block('bib', pay, 2, key=bytes(range(32)), kid=b'stranger')
+        add_block('bcb', pay, 3)
+    elif cls == 'layers-empty':
+        # a multi-layer COSE message (COSE_Sign / COSE_Mac / COSE_Encrypt) that carries no signature / recipient at all: anybody can
+        # make one without a key, nothing in it verifies
+        def mut(asb, sec, tgt):
+            (_rid, rval) = asb['results'][0][0]
+            msg = cw.parse_all(rval).to_python()
+            if kind == 'bib':
+                which = rng.randrange(2)
+                asb['results'][0][0] = ((98, cw.enc([msg[0], {}, None, []])) if which == 0 else (97, cw.enc([msg[0], {}, None, b'\x00' * 32, []])))
+            else:
+                asb['results'][0][0] = (96, cw.enc([msg[0], msg[1] if isinstance(msg[1], dict) else {}, None, []]))
+        add_block(kind, pay, 2, mutate=mut)
     elif cls == 'garbage-cose':
         add_block(kind, pay, 2, mutate=lambda asb, sec, tgt: asb.update(results=[[(asb['results'][0][0][0], bytes(rng.getrandbits(8) for _ in range(20)))]]))
     elif cls == 'wrong-msg-type':
